@@ -289,15 +289,15 @@ func Program(t *rapid.T, cfg AsmConfig) rc.Program {
 		items = append(items[:pos], append([]rc.Item{it}, items[pos:]...)...)
 	}
 	if rapid.Bool().Draw(t, "hasname") {
-		insertMeta(rc.Item{Kind: rc.KMeta, Text: "name", Arg: rapid.SampledFrom([]string{"Imp", "Dwarf II", "x", "The  Thing, v1.0 ; rev", "name", "author of all"}).Draw(t, "name")}, "name")
+		insertMeta(rc.Item{Kind: rc.KMeta, Text: "name", Arg: rapid.SampledFrom([]string{"Imp", "Dwarf II", "x", "The  Thing, v1.0 ; rev", "name", "author of all", "Zo\u00eb \u00c5ngstr\u00f6m imp", "\u65e5\u672c\u8a9e \u2192 warrior"}).Draw(t, "name")}, "name")
 	}
 	if rapid.Bool().Draw(t, "hasauthor") {
-		insertMeta(rc.Item{Kind: rc.KMeta, Text: "author", Arg: rapid.SampledFrom([]string{"A. K. Dewdney", "nobody", "J.Q. Public <jq@example.org>", "strategy & name"}).Draw(t, "author")}, "author")
+		insertMeta(rc.Item{Kind: rc.KMeta, Text: "author", Arg: rapid.SampledFrom([]string{"A. K. Dewdney", "nobody", "J.Q. Public <jq@example.org>", "strategy & name", "Ren\u00e9e M\u00fcller-L\u00fcdenscheidt", "\u041a\u043e\u043b\u044f"}).Draw(t, "author")}, "author")
 	}
 	ns := rapid.IntRange(0, 2).Draw(t, "nstrat")
 	for k := 0; k < ns; k++ {
 		pos := rapid.IntRange(0, len(items)).Draw(t, "stratpos")
-		s := rc.Item{Kind: rc.KMeta, Text: "strategy", Arg: rapid.SampledFrom([]string{"bomb everything", "line two: x -> y", "1", "  indented text"}).Draw(t, "strat")}
+		s := rc.Item{Kind: rc.KMeta, Text: "strategy", Arg: rapid.SampledFrom([]string{"bomb everything", "line two: x -> y", "1", "  indented text", "na\u00efve bomber \u2014 \u00bd core, then \u03bb-scan"}).Draw(t, "strat")}
 		items = append(items[:pos], append([]rc.Item{s}, items[pos:]...)...)
 	}
 	// entry point
